@@ -28,7 +28,7 @@ func runC03(c *Ctx, r *Report) {
 	r.Doc("R-C03.8", "head maps handed out as snapshots are never mutated in place (Merge is pure)")
 	pureMerge(c, r, "R-C03.8")
 	{
-		join := p.Func("", "IPFSLog", "Join")
+		join := p.FuncI("", "IPFSLog", "Join")
 		nextF, entriesF2 := p.Field("", "IPFSLog", "Next"), p.Field("", "IPFSLog", "Entries")
 		loopOf := map[*types.Var]ast.Node{}
 		posOf := map[*types.Var]token.Pos{}
@@ -96,7 +96,7 @@ func runC03(c *Ctx, r *Report) {
 	}
 	r.Floor("R-C03.1", "sorting.Sort calls in IPFSLog methods", nSort, 2)
 	// NewLog: SortFn initialiser derives from options.SortFn
-	newLog := p.Func("", "", "NewLog")
+	newLog := p.FuncI("", "", "NewLog")
 	optSort := p.Field("iface", "LogOptions", "SortFn")
 	okInit := false
 	walkNoLit(newLog.Body, func(n ast.Node) bool {
@@ -121,7 +121,7 @@ func runC03(c *Ctx, r *Report) {
 	r.Check(okInit, "R-C03.1", r.Key("R-C03.1", newLog, "SortFn-init", ""), newLog.Body.Pos(), "NewLog derives the log's comparator from the caller's option", "NewLog does not derive the log's SortFn from options.SortFn: the configured ordering is ignored")
 
 	// traverse
-	tr := p.Func("", "IPFSLog", "traverse")
+	tr := p.FuncI("", "IPFSLog", "traverse")
 	// the work stack: the slice variable that is popped with x[0] and re-sliced x = x[1:]
 	var stack types.Object
 	walkNoLit(tr.Body, func(n ast.Node) bool {
@@ -348,7 +348,7 @@ func runC03(c *Ctx, r *Report) {
 		"every pushed predecessor is marked visited before the next pop", "a pushed predecessor can reach the next pop (at "+leak+") without being marked visited: it is pushed again through another successor")
 
 	// R-C03.5
-	vals := p.Func("", "IPFSLog", "values")
+	vals := p.FuncI("", "IPFSLog", "values")
 	headsF, entriesF := p.Field("", "IPFSLog", "heads"), p.Field("", "IPFSLog", "Entries")
 	usesHeads, usesEntries := false, false
 	walkNoLit(vals.Body, func(n ast.Node) bool {
@@ -415,7 +415,7 @@ func lookupSubject(p *Prog, fn *Fn, okIdent *ast.Ident, visited types.Object) *t
 // taken from the work stack (shared by C03 and C15).
 func endHashStops(c *Ctx, r *Report, rule string) {
 	p := c.P
-	tr := p.Func("", "IPFSLog", "traverse")
+	tr := p.FuncI("", "IPFSLog", "traverse")
 	var endParam types.Object
 	for i := 0; ; i++ {
 		o := paramObj(tr, i)
@@ -487,7 +487,7 @@ func appendSingleSection(c *Ctx, r *Report, rule string, consequence string) {
 	app := c.P.Func("", "IPFSLog", "Append")
 	bad := false
 	for _, s := range le.Splits {
-		if s.Fn.Root() == app {
+		if s.Fn.Root() == orig(app) {
 			bad = true
 			r.Violate(rule, r.Key(rule, app, "store-after-reopen", s.Field), s.Pos, "Append releases the log's lock between reading the heads and storing "+s.Field+": "+consequence)
 		}
@@ -495,7 +495,7 @@ func appendSingleSection(c *Ctx, r *Report, rule string, consequence string) {
 	// the section must actually exist: Append holds the write lock when it stores
 	held := false
 	for _, a := range le.Accesses {
-		if a.Fn.Root() == app && a.Kind != "load" && a.Held {
+		if a.Fn.Root() == orig(app) && a.Kind != "load" && a.Held {
 			held = true
 		}
 	}
